@@ -27,7 +27,32 @@ func Sha3(b []byte) []byte {
 type RecDB struct {
 	db.Database
 	Nodes map[string]bool
+	// fault injection: when Armed, the (Skip+1)-th Get on the MerkleTrie bucket fails once
+	Armed bool
+	Skip  int
+	Fired bool
 }
+
+// ErrInjected is the transient read failure injected by an armed RecDB.
+var ErrInjected = fmt.Errorf("injected transient read failure")
+
+func (b *recBucket) Get(k []byte) ([]byte, error) {
+	if b.d.Armed {
+		if b.d.Skip == 0 {
+			b.d.Armed = false
+			b.d.Fired = true
+			return nil, ErrInjected
+		}
+		b.d.Skip--
+	}
+	return b.Bucket.Get(k)
+}
+
+// Arm makes the (skip+1)-th node read fail once.
+func (d *RecDB) Arm(skip int) { d.Armed, d.Skip, d.Fired = true, skip, false }
+
+// Disarm switches fault injection off and reports whether the fault fired.
+func (d *RecDB) Disarm() bool { d.Armed = false; return d.Fired }
 
 type recBucket struct {
 	db.Bucket
